@@ -943,7 +943,7 @@ struct Value {
         }
 
         if (type == ValueType::ValuePtr) {
-            return value_->isUndefined();
+            return value_->IsUndefined();
         }
 
         return false;
@@ -1967,7 +1967,7 @@ struct Value {
         const VItem *end    = (h_item + obj.Size());
 
         while (h_item != end) {
-            if ((h_item != nullptr) && !(h_item->Value.isUndefined())) {
+            if ((h_item != nullptr) && !(h_item->Value.IsUndefined())) {
                 stream += JSONotation::QuoteChar;
                 JSONUtils::Escape(h_item->Key.First(), h_item->Key.Length(), stream);
                 stream += JSONotation::QuoteChar;
@@ -1997,7 +1997,7 @@ struct Value {
         const Value *end  = arr.End();
 
         while (item != end) {
-            if (!(item->isUndefined())) {
+            if (!(item->IsUndefined())) {
                 stringifyValue(*item, stream, precision);
                 stream += JSONotation::CommaChar;
             }
